@@ -167,6 +167,12 @@ def compare_structure(ctx, stream, case, tmpl, full):
             ok = False
         else:
             ctx.branch("decl-order:same")
+        # the key lists copied into __M_locals after each <% %> block of the function
+        if (m["updates"] or []) != c.updates:
+            ctx.disagree(stream, dict(case.key(), function=str(p), what="__M_locals.update key lists"), m["updates"], c.updates)
+            ok = False
+        elif c.updates:
+            ctx.branch("mlocals-update-lists:same", len(c.updates))
         if c.odd or c.dups or c.after_writer:
             ctx.disagree(stream, dict(case.key(), function=str(p)), "prelude of fetches / stubs / inline defs, each name once, "
                          "before __M_writer", {"not understood": c.odd, "twice": c.dups, "after writer": c.after_writer})
